@@ -1,4 +1,241 @@
-import GunYu.Model.Sender
-import GunYu.Model.Target
+/-
+  C09 — A source transaction reaches the target as one atomic transaction
+  (transactional replay mode, standalone target).
+
+  Sender model: GunYu/Model/Sender.lean; target model: GunYu/Model/Target.lean.
+-/
+import GunYu.Proofs.SenderRun
+import GunYu.Proofs.TargetSeq
+
 namespace GunYu.Props.C09
+open GunYu GunYu.Sender GunYu.Target
+
+/-- the loop is between a consumed MULTI and its EXEC -/
+def InsideTxn (s : SState) : Prop :=
+  s.inTxn = true ∧ s.needFlush = false ∧ (s.txn = .begin_ ∨ s.txn = .in_)
+
+/-- **Nothing is sent while inside a source transaction**: no tick of any kind,
+    no size or byte limit, no keep-alive and no command other than the closing
+    EXEC makes the loop put anything on the wire (hence no checkpoint either),
+    and the loop stays inside the transaction. -/
+theorem no_flush_inside_txn (c : SCfg) (hc : c.txnMode = true) (s : SState) (hs : InsideTxn s)
+    (ev : Ev) (hev : ∀ it, ev = .item it → it.cmd ≠ bExec) :
+    (step c s ev).2 = [] ∧ InsideTxn (step c s ev).1 := by
+  obtain ⟨hin, hnf, htx⟩ := hs
+  cases ev with
+  | item it =>
+    have hne := hev it rfl
+    simp only [step]
+    split
+    · exact ⟨rfl, hin, hnf, htx⟩
+    · have hst : txnStatus it.cmd s.txn = (Txn.in_, false) := by
+        have hcl : cmdClass it.cmd ≠ some Txn.commit := by
+          unfold cmdClass
+          by_cases h1 : it.cmd = bSelect
+          · simp [h1]
+          · by_cases h2 : it.cmd = bMulti
+            · have : bMulti ≠ bSelect := by decide
+              simp [h2, this]
+            · simp [h1, h2, hne]
+        rcases htx with h | h <;> simp [txnStatus, h, hcl]
+      unfold stepItem
+      simp only [hc, ↓reduceIte, hst]
+      unfold stepItemTxn preFlush absorb
+      simp only [Bool.false_eq_true, ↓reduceIte, ne_eq, reduceCtorEq, not_false_eq_true, and_self]
+      rw [tail_quiet _ _ _ _ _ (by simpa [enqueue] using hin) (by simp [enqueue])]
+      exact ⟨rfl, by simpa [enqueue] using hin, by simp [enqueue], Or.inr (by simp [enqueue])⟩
+  | batchTick =>
+    simp only [step, hin, hnf, Bool.not_true, Bool.and_false, Bool.false_and, Bool.false_eq_true, ↓reduceIte]
+    rw [tail_quiet _ _ _ _ _ hin hnf]; exact ⟨rfl, hin, hnf, htx⟩
+  | keepaliveTick =>
+    simp only [step, hin, Bool.not_true, Bool.false_and, Bool.false_eq_true, ↓reduceIte]
+    rw [tail_quiet _ _ _ _ _ hin hnf]; exact ⟨rfl, hin, hnf, htx⟩
+  | cpTick =>
+    simp only [step, hin, Bool.not_true, Bool.false_and, Bool.false_eq_true, ↓reduceIte]
+    rw [tail_quiet _ _ _ _ _ hin hnf]; exact ⟨rfl, hin, hnf, htx⟩
+  | done =>
+    simp only [step, hin, Bool.not_true, Bool.false_and, Bool.false_eq_true, ↓reduceIte]
+    rw [tail_quiet _ _ _ _ _ hin hnf]; exact ⟨rfl, hin, hnf, htx⟩
+
+/-- the same over any stretch of events without EXEC -/
+theorem no_flush_inside_txn_run (c : SCfg) (hc : c.txnMode = true) (s : SState) (hs : InsideTxn s)
+    (evs : List Ev) (hev : ∀ ev ∈ evs, ∀ it, ev = .item it → it.cmd ≠ bExec) :
+    (run c s evs).2 = [] ∧ InsideTxn (run c s evs).1 := by
+  induction evs generalizing s with
+  | nil => exact ⟨rfl, hs⟩
+  | cons ev rest ih =>
+    obtain ⟨h1, h2⟩ := no_flush_inside_txn c hc s hs ev (hev ev (List.mem_cons_self ..))
+    simp only [run]
+    split
+    · exact ⟨h1, h2⟩
+    · obtain ⟨h3, h4⟩ := ih _ h2 (fun e he => hev e (List.mem_cons_of_mem _ he))
+      exact ⟨by rw [h1, h3]; rfl, h4⟩
+
+theorem stepItem_txn_eq (c : SCfg) (hc : c.txnMode = true) (s : SState) (it : Item) (prev : Int)
+    (t : Txn) (nf : Bool) (hst : txnStatus it.cmd s.txn = (t, nf)) :
+    stepItem c s it prev = stepItemTxn c { s with txn := t, needFlush := nf } t nf it prev := by
+  unfold stepItem
+  simp only [hc, ↓reduceIte, hst]
+
+/-- **MULTI opens a transaction with an empty queue**: whatever was pending is
+    flushed first — with the position BEFORE the MULTI (`s.lastOffset`), never
+    the MULTI's own end offset — and the loop is inside the transaction. -/
+theorem multi_opens (c : SCfg) (hc : c.txnMode = true) (s : SState)
+    (htx : s.txn = .no ∨ s.txn = .barrier ∨ s.txn = .commit) (it : Item) (hm : it.cmd = bMulti) :
+    InsideTxn (step c s (.item it)).1 ∧ (step c s (.item it)).1.queue = [] ∧
+    (∀ o ∈ cpOffsets (step c s (.item it)).2, o = s.lastOffset) := by
+  have hpm : bMulti ≠ bPing := by decide
+  have hst : txnStatus bMulti s.txn = (Txn.begin_, true) := by
+    rcases htx with h | h | h <;> simp [txnStatus, h, cmdClass, bMulti, bSelect]
+  have hst' : txnStatus it.cmd ({ s with lastOffset := it.offset } : SState).txn = (Txn.begin_, true) := by
+    rw [hm]; exact hst
+  simp only [step, hm, hpm, ↓reduceIte]
+  rw [stepItem_txn_eq c hc _ it s.lastOffset _ _ hst']
+  unfold stepItemTxn
+  simp only
+  generalize hs1 : ({ s with lastOffset := it.offset, txn := Txn.begin_, needFlush := true } : SState) = s1
+  obtain ⟨hq, hnf, _, htxn, _⟩ := preFlush_forced c s1 .begin_ s.lastOffset
+  generalize hpf : preFlush c s1 .begin_ true s.lastOffset = pf at hq hnf htxn
+  have hab : absorb pf.1 .begin_ it = { pf.1 with inTxn := true } := by simp [absorb]
+  have htq := tail_quiet c { pf.1 with inTxn := true } c.txnMode (c.resume && c.txnMode) pf.2 rfl hnf
+  rw [hab, htq]
+  refine ⟨⟨rfl, hnf, Or.inl ?_⟩, hq, ?_⟩
+  · show pf.1.txn = .begin_
+    rw [htxn, ← hs1]
+  · intro o ho
+    simp only at ho
+    have h := (preFlush_cp c s1 .begin_ true s.lastOffset).2
+    rw [hpf] at h
+    rcases h with h | ⟨h, _⟩ | ⟨h, _⟩
+    · rw [h] at ho; cases ho
+    · rw [h] at ho; simpa using ho
+    · -- would be the commit case: impossible, the status is `begin_`
+      rw [← hpf] at h ho
+      unfold preFlush at h ho
+      simp only [↓reduceIte, reduceCtorEq] at h ho
+      rcases (sendOnce_cp c s1 c.txnMode (c.resume && c.txnMode) s.lastOffset).2 with h0 | ⟨h1, _⟩
+      · rw [h0] at ho; cases ho
+      · rw [h1] at ho; simpa using ho
+
+/-- the end-of-iteration step on an empty queue sends no data -/
+theorem tail_on_empty (c : SCfg) (s : SState) (tb up : Bool) (out : List Batch)
+    (hq : s.queue = []) (hin : s.inTxn = false) :
+    ∃ extra, (tail c s tb up out).2 = out ++ extra ∧ dataOut extra = [] ∧
+      (tail c s tb up out).1.queue = [] ∧ (tail c s tb up out).1.inTxn = false := by
+  have hd : ∀ s' : SState, s'.queue = [] → ∀ tb up off,
+      dataOut (optToList (sendOnce c s' tb up off).2) = [] := by
+    intro s' hs' tb up off
+    have h := (sendOnce_data c s' tb up off).1
+    have hq0 : qd s' = [] := by simp [qd, hs']
+    rw [hq0] at h
+    exact (List.append_eq_nil_iff.mp h).1
+  unfold tail
+  simp only
+  split
+  · rw [if_pos rfl]
+    exact ⟨_, rfl, hd { s with needFlush := true } hq _ _ _, sendOnce_queue_nil _ _ _ _ _, rfl⟩
+  · split
+    · exact ⟨_, rfl, hd s hq _ _ _, sendOnce_queue_nil _ _ _ _ _, rfl⟩
+    · exact ⟨[], by simp, rfl, hq, hin⟩
+
+/-- **EXEC sends the whole transaction as ONE MULTI/EXEC block** carrying every
+    queued command of it and — when resumable — the checkpoint offset of the
+    EXEC itself, all inside the same MULTI/EXEC; whatever else the iteration
+    sends carries no data; afterwards the queue is empty and the loop is
+    outside the transaction. -/
+theorem exec_flushes_one_block (c : SCfg) (hc : c.txnMode = true) (s : SState) (hs : InsideTxn s)
+    (it : Item) (he : it.cmd = bExec) (hq : s.queue ≠ []) :
+    ∃ s1 extra, s1.queue = s.queue ∧
+      (step c s (.item it)).2 =
+        ([Req.multi] ++ s.queue.map (fun i => Req.cmd i.cmd i.args i.offset) ++
+          cpPart c s1 (c.resume && decide (0 ≤ it.offset)) it.offset ++ [Req.exec]) :: extra ∧
+      dataOut extra = [] ∧
+      (step c s (.item it)).1.queue = [] ∧ (step c s (.item it)).1.inTxn = false := by
+  obtain ⟨hin, hnf, htx⟩ := hs
+  have hpe : bExec ≠ bPing := by decide
+  have hst : txnStatus bExec s.txn = (Txn.commit, true) := by
+    rcases htx with h | h <;> simp [txnStatus, h, cmdClass, bMulti, bSelect, bExec]
+  have hst' : txnStatus it.cmd ({ s with lastOffset := it.offset } : SState).txn = (Txn.commit, true) := by
+    rw [he]; exact hst
+  simp only [step, he, hpe, ↓reduceIte]
+  rw [stepItem_txn_eq c hc _ it s.lastOffset _ _ hst']
+  unfold stepItemTxn
+  simp only [hc, Bool.and_true]
+  generalize hs1 : ({ s with lastOffset := it.offset, txn := Txn.commit, needFlush := true } : SState) = s1
+  have hq1 : s1.queue = s.queue := by rw [← hs1]
+  have hl1 : s1.lastOffset = it.offset := by rw [← hs1]
+  have hne1 : s1.queue.isEmpty = false := by
+    rw [hq1]; cases hqq : s.queue with
+    | nil => exact absurd hqq hq
+    | cons _ _ => rfl
+  have hne2 : (sendReqs c s1 true (c.resume && decide (0 ≤ it.offset)) it.offset).isEmpty = false := by
+    unfold sendReqs; simp
+  have hso : sendOnce c s1 true c.resume it.offset =
+      ({ s1 with queue := [], qbytes := 0,
+                 cpInDbs := cpInAfter c s1 (c.resume && decide (0 ≤ it.offset)),
+                 connDb := dbAfter s1.connDb s1.queue },
+       some (sendReqs c s1 true (c.resume && decide (0 ≤ it.offset)) it.offset)) := by
+    unfold sendOnce
+    simp only [hne1, Bool.false_and, Bool.false_eq_true, ↓reduceIte, hne2]
+  have hpf : preFlush c s1 .commit true s.lastOffset =
+      ({ (sendOnce c s1 true c.resume it.offset).1 with needFlush := false, inTxn := false },
+       optToList (sendOnce c s1 true c.resume it.offset).2) := by
+    unfold preFlush; simp only [↓reduceIte, hl1, hc, Bool.and_true]
+  rw [hpf, hso]
+  simp only [optToList]
+  have hab : ∀ x : SState, absorb x .commit it = x := by intro x; simp [absorb]
+  rw [hab]
+  have hbody : sendReqs c s1 true (c.resume && decide (0 ≤ it.offset)) it.offset =
+      [Req.multi] ++ s.queue.map (fun i => Req.cmd i.cmd i.args i.offset) ++
+        cpPart c s1 (c.resume && decide (0 ≤ it.offset)) it.offset ++ [Req.exec] := by
+    unfold sendReqs; simp [hq1]
+  obtain ⟨extra, hx1, hx2, hx3, hx4⟩ := tail_on_empty c
+    { s1 with queue := [], qbytes := 0,
+              cpInDbs := cpInAfter c s1 (c.resume && decide (0 ≤ it.offset)),
+              connDb := dbAfter s1.connDb s1.queue, needFlush := false, inTxn := false }
+    true c.resume [sendReqs c s1 true (c.resume && decide (0 ≤ it.offset)) it.offset] rfl rfl
+  refine ⟨s1, extra, hq1, ?_, hx2, hx3, hx4⟩
+  rw [hx1, hbody]
+  rfl
+
+/-! ### Target: a MULTI/EXEC block is all-or-nothing at every crash point -/
+
+/-- every strict prefix of a block `MULTI body EXEC` leaves the data, the stored
+    checkpoint and the selected DB untouched -/
+theorem block_prefix_applies_nothing (body : List Req) (hb : ∀ r ∈ body, Plain r = true)
+    (t : TState) (hq : t.queued = none) (k : Nat) (hk : k ≤ body.length) :
+    (applyLog t (([Req.multi] ++ body ++ [Req.exec]).take (k + 1))).applied = t.applied ∧
+    (applyLog t (([Req.multi] ++ body ++ [Req.exec]).take (k + 1))).cps = t.cps := by
+  have htake : ([Req.multi] ++ body ++ [Req.exec]).take (k + 1) = [Req.multi] ++ body.take k := by
+    simp only [List.cons_append, List.take_succ_cons, List.nil_append]
+    rw [List.take_append_of_le_length hk]
+  rw [htake]
+  unfold applyLog
+  rw [List.foldl_append]
+  have h1 : [Req.multi].foldl applyReq t = { t with queued := some [] } := by simp [applyReq, hq]
+  rw [h1]
+  have h2 := applyLog_queue (body.take k) (fun r hr => hb r (List.mem_of_mem_take hr))
+    { t with queued := some [] } [] rfl
+  unfold applyLog at h2
+  rw [h2]
+  exact ⟨rfl, rfl⟩
+
+/-- the complete block applies its whole body, in order -/
+theorem block_complete_applies_all (body : List Req) (hb : ∀ r ∈ body, Plain r = true)
+    (t : TState) (hq : t.queued = none) :
+    applyLog t ([Req.multi] ++ body ++ [Req.exec]) = body.foldl execReq t :=
+  applyLog_block body hb t hq
+
+/-! Non-vacuity: a state inside a transaction; EXEC flushes one block -/
+def exCfg : SCfg := { txnMode := true, resume := true, batchCount := 1, batchBytes := 1 }
+def exS : SState :=
+  { queue := [{ cmd := [115,101,116], args := [[97],[49]], offset := 1040, db := 0 },
+              { cmd := [100,101,108], args := [[98]], offset := 1060, db := 0 }],
+    txn := .in_, inTxn := true, needFlush := false, lastOffset := 1060 }
+example : InsideTxn exS := ⟨rfl, rfl, Or.inr rfl⟩
+example : (step exCfg exS .batchTick).2 = [] ∧ (step exCfg exS .keepaliveTick).2 = [] := by decide
+example : (step exCfg exS (.item { cmd := bExec, args := [], offset := 1074, db := 0 })).2 =
+    [[Req.multi, Req.cmd [115,101,116] [[97],[49]] 1040, Req.cmd [100,101,108] [[98]] 1060,
+      Req.cpMeta, Req.cpOffset 1074, Req.exec]] := by decide
+
 end GunYu.Props.C09
